@@ -974,3 +974,50 @@ func vC15Records(k int) {
 		vCover("C15 records: accepted")
 	}
 }
+
+// ---------------------------------------------------------------------------------------------
+// C15 (sender side): what the receiver sends back on the control stream is N arbitrary bytes, then the
+// stream ends. The real sender (goroutines as symbolic threads) must come back: no panic, nobody left
+// waiting; and it reports success only if those bytes really were an acknowledgement of its file.
+func H_C15_sender_control()        { vC15SenderControl(false) }
+func H_C15_sender_control_silent() { vC15SenderControl(true) }
+
+// silent: after the bytes the peer keeps the stream open and says nothing more (waiting is then correct
+// and not judged; this variant is there for the success oracle, the other one for "nobody left waiting")
+func vC15SenderControl(silent bool) {
+	size := 5
+	src := vBytes("src", size)
+	dir := vTempDir()
+	vTempFile("src/f", src)
+	item := manifest.FileItem{RelPath: "f", Size: int64(size), ID: "id"}
+	m := manifest.Manifest{Root: "src", Items: []manifest.FileItem{item}, TotalBytes: int64(size), FileCount: 1}
+	key := fileKeyForItem(item)
+	n := []int{0, 1, 11, 12, 14}[vChoice("nIdx", 5)]
+	raw := vBytes("acks", n)
+	if n >= 9 && vBool("rightKey") {
+		binary.BigEndian.PutUint64(raw[1:9], key) // otherwise almost every record names an unknown file
+	}
+	vSenderAcks = raw
+	vSenderPeerSilent = silent
+	conn := &vSendConn{}
+	err := SendManifestMultiStream(vContext("ctx", false), conn, dir+"/src", m, Options{ChunkSize: 4, ParallelFiles: 1})
+	if err != nil {
+		vCover("C15 sender-control: rejected")
+		return
+	}
+	vCover("C15 sender-control: accepted")
+	confirmed := false
+	rep := &vMemStream{buf: raw}
+	for {
+		typ, msg, rerr := readControlMessage(rep)
+		if rerr != nil {
+			break
+		}
+		if typ == controlTypeFileDone {
+			if fd := msg.(FileDone); fd.StreamID == key && fd.OK {
+				confirmed = true
+			}
+		}
+	}
+	vAssert(confirmed, "the sender reports success only if the bytes it received confirm its file")
+}
